@@ -1081,6 +1081,36 @@ func c03Run(r *mon.Run) {
 			}
 		}
 	}
+	// (6) every \uXXXX escape (all 65536 code units, lower- and upper-case hex) as a value and as a key, alone and
+	// next to a plain character
+	for cu := 0; cu < 0x10000; cu++ {
+		if !r.Mine(cu) {
+			continue
+		}
+		hex := fmt.Sprintf("%04x", cu)
+		if cu%2 == 1 {
+			hex = strings.ToUpper(hex)
+		}
+		e := c03U(hex)
+		outside := false
+		for _, t := range []string{`["` + e + `"]`, `{"` + e + `":1,"z` + e + `":"` + e + `z"}`} {
+			r.Eval(1)
+			fails, in := c03Judge([]byte(t))
+			if !in {
+				outside = true
+				continue
+			}
+			for _, f := range fails {
+				st.report(f.clause, "escape "+e, f.what, []byte(t), []byte(t))
+			}
+			r.Nontrivial("d", t)
+		}
+		if outside {
+			r.Count("code_unit_escapes_outside_the_family", 1)
+		} else {
+			r.Count("code_unit_escapes_judged", 1)
+		}
+	}
 	r.Count("reduction_probes", st.probes)
 }
 
